@@ -172,6 +172,15 @@ MOP(transpose) {
     return os.str();
 }
 
+// transpose_s A rparts cparts : the same in storage order (local entries, then received remote
+// entries in arrival-slot order), compared with the rank-by-rank model Dist.dist_transpose
+MOP(transpose_s) {
+    auto A = t.crsT<double>(); Parts rp = parts(t), cp = parts(t);
+    auto D = dist(*A, rp, cp);
+    auto T = amgcl::mpi::transpose(*D);
+    return show_strip(*T, false, rp.total);
+}
+
 // product A rpA cpA B cpB   (rows of B are distributed like the columns of A)
 MOP(product) {
     auto A = t.crsT<double>(); Parts rpA = parts(t), cpA = parts(t);
